@@ -12,7 +12,7 @@ from harness.common import drv, guarded, impl, run_check
 
 PID = "C20"
 THEOREMS = ["binnify_eq_spec", "tilingSpec_get", "tilingSpec_last_stop", "getBinsize_truthful",
-            "getBinsize_complete", "getChromsizes_mem", "getChromsizes_nodup"]
+            "getBinsize_complete", "getChromsizes_mem", "getChromsizes_nodup", "binnify_roundtrip"]
 LEVELS = {"binnify": "top", "binsize_truthful": "top", "chromsizes": "top", "binsize_unit": "unit",
           "makebins_cli": "top", "cooler_binsize": "top"}
 DESCRIBE = {
